@@ -14,7 +14,7 @@ import os
 
 import core as C
 
-MAX_DEPTH = 4
+MAX_DEPTH = 6
 MAX_BLOCKS = 400
 
 _KNOWN = None
@@ -133,111 +133,470 @@ def _target(prog, t, helpers):
     return None, False
 
 
-def inline_body(prog, body, helpers):
-    bj = body.j
-    blocks = copy.deepcopy(bj["blocks"])
-    locals_ = list(bj["locals"])
-    depth = [0] * len(blocks)
-    stack = [()] * len(blocks)
-    changed = False
-    i = 0
-    while i < len(blocks):
-        blk = blocks[i]
-        t = blk["term"]
-        if t["k"] == "call" and not blk["cleanup"] and depth[i] < MAX_DEPTH:
-            cb, is_closure = _target(prog, t, helpers)
-            if cb is not None and cb.name != body.name and cb.name not in stack[i] and len(cb.blocks) <= MAX_BLOCKS:
-                off = len(locals_)
-                boff = len(blocks)
-                locals_ += cb.locals
-                setup = []
-                args = t["args"]
-                sp = t["span"]
-                if is_closure and len(args) == 2 and cb.arg_count != 2:
-                    # rust-call ABI: (env, (a, b, ..)) -> params _1 = env, _2.. = tuple fields
-                    setup.append({"k": "assign", "lhs": {"l": off + 1, "p": []}, "rv": {"k": "use", "op": args[0]}, "span": sp})
-                    tp = C.op_place(args[1])
-                    for k in range(cb.arg_count - 1):
-                        if tp is None:
-                            break
-                        fld = {"k": "field", "i": k, "owner": "(tuple)", "fty": cb.locals[2 + k]["ty"]}
-                        setup.append({"k": "assign", "lhs": {"l": off + 2 + k, "p": []},
-                                      "rv": {"k": "use", "op": {"k": "move", "pl": {"l": tp["l"], "p": tp["p"] + [fld]}}}, "span": sp})
-                else:
-                    for k, a in enumerate(args[:cb.arg_count]):
-                        setup.append({"k": "assign", "lhs": {"l": off + 1 + k, "p": []}, "rv": {"k": "use", "op": a}, "span": sp})
-                new = [_remap_block(b, off, boff) for b in cb.blocks]
-                for nb in new:
-                    if nb["term"]["k"] == "return":
-                        nb["stmts"].append({"k": "assign", "lhs": t["dest"], "rv": {"k": "use", "op": {"k": "move", "pl": {"l": off, "p": []}}},
-                                            "span": nb["term"]["span"]})
-                        if t.get("t") is not None:
-                            nb["term"] = {"k": "goto", "t": t["t"], "span": nb["term"]["span"]}
-                        else:
-                            nb["term"] = {"k": "unreachable", "span": nb["term"]["span"]}
-                blk["stmts"] = blk["stmts"] + setup
-                blk["term"] = {"k": "goto", "t": boff, "span": sp, "inlined_call": C.callee_name(t)}
-                blocks += new
-                depth += [depth[i] + 1] * len(new)
-                stack += [stack[i] + (cb.name,)] * len(new)
-                changed = True
-        i += 1
-    if not changed:
+# ------------------------------------------------------------------ combinator desugaring
+#
+# `r.map_err(|e| ..)`, `o.ok_or_else(|| ..)`, `it.try_for_each(|x| ..)` ... are the library spelling of a `match` / a `for` loop.
+# When the callable is a closure of this crate (or a plain fn item) the call is replaced by that match / loop with the closure body
+# spliced in, so that rules see one normal form whichever spelling the source uses.  name -> template id
+COMBINATORS = {
+    "std::option::Option::<T>::map": "o_map", "std::option::Option::<T>::and_then": "o_and_then",
+    "std::option::Option::<T>::unwrap_or_else": "o_unwrap_or_else", "std::option::Option::<T>::ok_or_else": "o_ok_or_else",
+    "std::option::Option::<T>::map_or": "o_map_or", "std::option::Option::<T>::map_or_else": "o_map_or_else",
+    "std::option::Option::<T>::or_else": "o_or_else", "std::option::Option::<T>::is_some_and": "o_is_some_and",
+    "std::option::Option::<T>::is_none_or": "o_is_none_or", "std::option::Option::<T>::filter": "o_filter",
+    "std::result::Result::<T, E>::map": "r_map", "std::result::Result::<T, E>::map_err": "r_map_err",
+    "std::result::Result::<T, E>::and_then": "r_and_then", "std::result::Result::<T, E>::or_else": "r_or_else",
+    "std::result::Result::<T, E>::unwrap_or_else": "r_unwrap_or_else", "std::result::Result::<T, E>::map_or": "r_map_or",
+    "std::result::Result::<T, E>::map_or_else": "r_map_or_else", "std::result::Result::<T, E>::is_ok_and": "r_is_ok_and",
+    "std::result::Result::<T, E>::is_err_and": "r_is_err_and",
+    "std::bool::<impl bool>::then": "b_then",
+    "std::iter::Iterator::for_each": "i_for_each", "std::iter::Iterator::try_for_each": "i_try_for_each",
+    "std::iter::Iterator::any": "i_any", "std::iter::Iterator::all": "i_all", "std::iter::Iterator::find": "i_find",
+    "std::iter::Iterator::find_map": "i_find_map",
+}
+OPT, RES, CF = "std::option::Option", "std::result::Result", "std::ops::ControlFlow"
+VAR = {(OPT, 0): "None", (OPT, 1): "Some", (RES, 0): "Ok", (RES, 1): "Err", (CF, 0): "Continue", (CF, 1): "Break"}
+UNKNOWN_TY = {"ty": "_"}
+
+
+class Splicer:
+    def __init__(self, prog, body, helpers):
+        self.prog, self.body, self.helpers = prog, body, helpers
+        self.blocks = copy.deepcopy(body.j["blocks"])
+        self.locals = list(body.j["locals"])
+        self.depth = [0] * len(self.blocks)
+        self.stack = [()] * len(self.blocks)
+        self.changed = False
+        self.consumed = set()      # closures spliced in through a combinator template
+
+    # ---- construction helpers
+    def new_local(self, tyinfo):
+        self.locals.append(dict(tyinfo))
+        return len(self.locals) - 1
+
+    def new_block(self, like, span):
+        self.blocks.append({"cleanup": False, "stmts": [], "term": {"k": "unreachable", "span": span}, "inl": True, "syn": True})
+        self.depth.append(self.depth[like])
+        self.stack.append(self.stack[like])
+        return len(self.blocks) - 1
+
+    def assign(self, bb, lhs, rv, span):
+        self.blocks[bb]["stmts"].append({"k": "assign", "lhs": lhs, "rv": rv, "span": span})
+
+    def goto(self, bb, t, span):
+        self.blocks[bb]["term"] = {"k": "goto", "t": t, "span": span}
+
+    @staticmethod
+    def L(l):
+        return {"l": l, "p": []}
+
+    @staticmethod
+    def mv(pl):
+        return {"k": "move", "pl": pl}
+
+    @staticmethod
+    def payload(pl, adt, vi, fty="_"):
+        v = VAR[(adt, vi)]
+        return {"l": pl["l"], "p": pl["p"] + [{"k": "downcast", "vi": vi, "variant": v, "owner": adt},
+                                              {"k": "field", "i": 0, "fty": fty, "owner": adt, "variant": v, "vi": vi, "name": "0"}]}
+
+    @staticmethod
+    def agg(adt, vi, ops):
+        return {"k": "aggregate", "agg": {"k": "adt", "adt": adt, "vi": vi, "variant": VAR[(adt, vi)], "fields": ["0"] if ops else []}, "ops": ops}
+
+    def switch_enum(self, bb, pl, adt, t0, t1, span):
+        d = self.new_local({"ty": "isize"})
+        self.assign(bb, self.L(d), {"k": "discriminant", "pl": pl, "ty": adt + "<_>", "adt": adt}, span)
+        dead = self.new_block(bb, span)
+        self.blocks[bb]["term"] = {"k": "switch", "discr": self.mv(self.L(d)), "dty": "isize", "vals": [0, 1], "targets": [t0, t1],
+                                   "otherwise": dead, "span": span}
+
+    def switch_bool(self, bb, op, t_false, t_true, span):
+        self.blocks[bb]["term"] = {"k": "switch", "discr": op, "dty": "bool", "vals": [0], "targets": [t_false], "otherwise": t_true, "span": span}
+
+    # ---- callables
+    def callable(self, op, tyinfo):
+        """('closure', body) | ('fn', fnref) | None"""
+        c = (tyinfo or {}).get("closure")
+        if c and c in self.prog.bodies:
+            cb = self.prog.bodies[c]
+            if len(cb.blocks) <= MAX_BLOCKS:
+                return ("closure", cb)
+            return None
+        if op.get("k") == "const" and op.get("fn"):
+            return ("fn", op["fn"])
         return None
-    nj = dict(bj)
-    nj["blocks"] = blocks
-    nj["locals"] = locals_
-    return nj
+
+    def invoke(self, bb, cal, fop, arg_ops, dest, nxt, span):
+        """make block bb call `cal` with arg_ops, store the result in dest and continue at nxt"""
+        kind, x = cal
+        if kind == "fn":
+            self.blocks[bb]["term"] = {"k": "call", "callee": x, "args": arg_ops, "arg_tys": [UNKNOWN_TY] * len(arg_ops), "dest": dest,
+                                       "dest_ty": "_", "t": nxt, "unwind": None, "span": span, "fn_span": span, "fty": "_"}
+            return
+        cb = x
+        self.consumed.add(cb.name)
+        off = len(self.locals)
+        boff = len(self.blocks)
+        self.locals += cb.locals
+        env_ty = cb.locals[1]["ty"] if len(cb.locals) > 1 else ""
+        fpl = op_place_(fop)
+        if fpl is not None:
+            if env_ty.startswith("&"):
+                rv = {"k": "ref", "mut": env_ty.startswith("&mut"), "pl": fpl}
+            else:
+                rv = {"k": "use", "op": fop}
+            self.assign(bb, self.L(off + 1), rv, span)
+        for k, a in enumerate(arg_ops[:max(cb.arg_count - 1, 0)]):
+            self.assign(bb, self.L(off + 2 + k), {"k": "use", "op": a}, span)
+        new = [_remap_block(b, off, boff) for b in cb.blocks]
+        for nb in new:
+            if nb["term"]["k"] == "return":
+                nb["stmts"].append({"k": "assign", "lhs": dest, "rv": {"k": "use", "op": self.mv(self.L(off))}, "span": nb["term"]["span"]})
+                nb["term"] = {"k": "goto", "t": nxt, "span": nb["term"]["span"]}
+        self.blocks[bb]["term"] = {"k": "goto", "t": boff, "span": span, "inlined_closure": cb.name}
+        self.blocks += new
+        self.depth += [self.depth[bb] + 1] * len(new)
+        self.stack += [self.stack[bb] + (cb.name,)] * len(new)
+
+    # ---- templates
+    def try_combinator(self, i):
+        blk = self.blocks[i]
+        t = blk["term"]
+        tpl = None
+        for n in C.callee_names(t):
+            tpl = tpl or COMBINATORS.get(n)
+        if tpl is None or t.get("t") is None or not t["args"]:
+            return False
+        args, atys, span, dest, exit_ = t["args"], t.get("arg_tys") or [], t["span"], t["dest"], t["t"]
+        s = op_place_(args[0])
+        if s is None:
+            return False
+        n_f = {"o_map_or_else": 2, "r_map_or_else": 2}.get(tpl, 1)
+        if len(args) < 1 + n_f + (1 if tpl in ("o_map_or", "r_map_or") else 0):
+            return False
+        fidx = list(range(len(args) - n_f, len(args)))
+        cals = []
+        for k in fidx:
+            c = self.callable(args[k], atys[k] if k < len(atys) else None)
+            if c is None or (c[0] == "closure" and (c[1].name == self.body.name or c[1].name in self.stack[i])):
+                return False
+            cals.append(c)
+        f, fop = cals[-1], args[fidx[-1]]
+        dty = {"ty": t.get("dest_ty", "_")}
+        dadt = next((a for a in (OPT, RES, CF) if dty["ty"].startswith(a + "<")), None)
+        if dadt:
+            dty["adt"] = dadt
+        if tpl == "i_try_for_each" and dadt is None:
+            return False
+        L, mv, pay, agg = self.L, self.mv, self.payload, self.agg
+        nb = lambda: self.new_block(i, span)
+        call_stmt_free = dict(blk)      # the original block keeps its statements; only the terminator is replaced
+
+        def ret_ty(c):
+            return c[1].locals[0] if c[0] == "closure" else UNKNOWN_TY
+
+        def arm_wrap(bb, c, cop, xs, adt, vi):
+            """tmp = c(xs); dest = adt::vi(tmp)"""
+            tmp = self.new_local(ret_ty(c))
+            b2 = nb()
+            self.invoke(bb, c, cop, xs, L(tmp), b2, span)
+            self.assign(b2, dest, agg(adt, vi, [mv(L(tmp))]), span)
+            self.goto(b2, exit_, span)
+
+        def arm_call(bb, c, cop, xs):
+            self.invoke(bb, c, cop, xs, dest, exit_, span)
+
+        def arm_set(bb, rv):
+            self.assign(bb, dest, rv, span)
+            self.goto(bb, exit_, span)
+
+        use = lambda op: {"k": "use", "op": op}
+        cbool = lambda v: {"k": "const", "v": v, "ty": "bool"}
+        if tpl[0] in "or":
+            adt = OPT if tpl[0] == "o" else RES
+            b0, b1 = nb(), nb()            # variant 0 (None / Ok), variant 1 (Some / Err)
+            self.switch_enum(i, s, adt, b0, b1, span)
+            x0, x1 = mv(pay(s, adt, 0)) if adt == RES else None, mv(pay(s, adt, 1))
+            if tpl == "o_map":
+                arm_set(b0, agg(OPT, 0, [])); arm_wrap(b1, f, fop, [x1], OPT, 1)
+            elif tpl == "o_and_then":
+                arm_set(b0, agg(OPT, 0, [])); arm_call(b1, f, fop, [x1])
+            elif tpl == "o_unwrap_or_else":
+                arm_call(b0, f, fop, []); arm_set(b1, use(x1))
+            elif tpl == "o_ok_or_else":
+                arm_wrap(b0, f, fop, [], RES, 1); arm_set(b1, agg(RES, 0, [x1]))
+            elif tpl == "o_map_or":
+                arm_set(b0, use(args[1])); arm_call(b1, f, fop, [x1])
+            elif tpl == "o_map_or_else":
+                arm_call(b0, cals[0], args[fidx[0]], []); arm_call(b1, f, fop, [x1])
+            elif tpl == "o_or_else":
+                arm_call(b0, f, fop, []); arm_set(b1, use(args[0]))
+            elif tpl in ("o_is_some_and", "o_is_none_or"):
+                arm_set(b0, use(cbool("false" if tpl == "o_is_some_and" else "true"))); arm_call(b1, f, fop, [x1])
+            elif tpl == "o_filter":
+                arm_set(b0, agg(OPT, 0, []))
+                r = self.new_local({"ty": "&_"}); bl = self.new_local({"ty": "bool"})
+                self.assign(b1, L(r), {"k": "ref", "mut": False, "pl": pay(s, OPT, 1)}, span)
+                b2, bt, bf = nb(), nb(), nb()
+                self.invoke(b1, f, fop, [mv(L(r))], L(bl), b2, span)
+                self.switch_bool(b2, mv(L(bl)), bf, bt, span)
+                arm_set(bt, use(args[0])); arm_set(bf, agg(OPT, 0, []))
+            elif tpl == "r_map":
+                arm_wrap(b0, f, fop, [x0], RES, 0); arm_set(b1, agg(RES, 1, [x1]))
+            elif tpl == "r_map_err":
+                arm_set(b0, agg(RES, 0, [x0])); arm_wrap(b1, f, fop, [x1], RES, 1)
+            elif tpl == "r_and_then":
+                arm_call(b0, f, fop, [x0]); arm_set(b1, agg(RES, 1, [x1]))
+            elif tpl == "r_or_else":
+                arm_set(b0, agg(RES, 0, [x0])); arm_call(b1, f, fop, [x1])
+            elif tpl == "r_unwrap_or_else":
+                arm_set(b0, use(x0)); arm_call(b1, f, fop, [x1])
+            elif tpl == "r_map_or":
+                arm_call(b0, f, fop, [x0]); arm_set(b1, use(args[1]))
+            elif tpl == "r_map_or_else":
+                arm_call(b0, f, fop, [x0]); arm_call(b1, cals[0], args[fidx[0]], [x1])
+            elif tpl == "r_is_ok_and":
+                arm_call(b0, f, fop, [x0]); arm_set(b1, use(cbool("false")))
+            elif tpl == "r_is_err_and":
+                arm_set(b0, use(cbool("false"))); arm_call(b1, f, fop, [x1])
+            else:
+                return False
+        elif tpl == "b_then":
+            bt, bf = nb(), nb()
+            self.switch_bool(i, args[0], bf, bt, span)
+            arm_set(bf, agg(OPT, 0, [])); arm_wrap(bt, f, fop, [], OPT, 1)
+        else:
+            # iterator loops: `it` is the iterator (by value for for_each, `&mut I` otherwise)
+            targs = (t["callee"].get("targs") or [UNKNOWN_TY])
+            selfty = targs[0]["ty"] if targs else "_"
+            head, got, done = nb(), nb(), nb()
+            if tpl == "i_for_each":
+                it = self.new_local(targs[0] if targs else UNKNOWN_TY)
+                self.assign(i, L(it), use(args[0]), span)
+                r = self.new_local({"ty": "&mut " + selfty})
+                self.assign(head, L(r), {"k": "ref", "mut": True, "pl": L(it)}, span)
+                rop = mv(L(r))
+            else:
+                rop = {"k": "copy", "pl": s}
+            self.goto(i, head, span)
+            item = self.new_local({"ty": OPT + "<_>", "adt": OPT})
+            nxt = nb()
+            self.blocks[head]["term"] = {
+                "k": "call", "callee": {"path": "std::iter::Iterator::next", "rpath": "<%s as std::iter::Iterator>::next" % selfty, "full": "_",
+                                        "krate": "core", "local": False, "targs": targs[:1], "synthetic": True},
+                "args": [rop], "arg_tys": [{"ty": "&mut " + selfty}], "dest": L(item), "dest_ty": OPT + "<_>", "t": nxt, "unwind": None,
+                "span": span, "fn_span": span, "fty": "_"}
+            self.switch_enum(nxt, L(item), OPT, done, got, span)
+            x = mv(pay(L(item), OPT, 1))
+            if tpl == "i_for_each":
+                u = self.new_local({"ty": "()"})
+                self.invoke(got, f, fop, [x], L(u), head, span)
+                arm_set(done, {"k": "aggregate", "agg": {"k": "tuple"}, "ops": []})
+            elif tpl == "i_try_for_each":
+                if dadt is None:
+                    return False
+                res = self.new_local(dty)
+                chk, brk = nb(), nb()
+                self.invoke(got, f, fop, [x], L(res), chk, span)
+                cont_vi = 1 if dadt == OPT else 0
+                tg = [head, brk] if cont_vi == 0 else [brk, head]
+                self.switch_enum(chk, L(res), dadt, tg[0], tg[1], span)
+                arm_set(brk, use(mv(L(res))))
+                unit = self.new_local({"ty": "()"})
+                self.assign(done, L(unit), {"k": "aggregate", "agg": {"k": "tuple"}, "ops": []}, span)
+                arm_set(done, agg(dadt, cont_vi, [mv(L(unit))]))
+            elif tpl in ("i_any", "i_all"):
+                bl = self.new_local({"ty": "bool"})
+                chk, hit = nb(), nb()
+                self.invoke(got, f, fop, [x], L(bl), chk, span)
+                if tpl == "i_any":
+                    self.switch_bool(chk, mv(L(bl)), head, hit, span)
+                else:
+                    self.switch_bool(chk, mv(L(bl)), hit, head, span)
+                arm_set(hit, use(cbool("true" if tpl == "i_any" else "false")))
+                arm_set(done, use(cbool("false" if tpl == "i_any" else "true")))
+            elif tpl == "i_find":
+                r = self.new_local({"ty": "&_"}); bl = self.new_local({"ty": "bool"})
+                self.assign(got, L(r), {"k": "ref", "mut": False, "pl": pay(L(item), OPT, 1)}, span)
+                chk, hit = nb(), nb()
+                self.invoke(got, f, fop, [mv(L(r))], L(bl), chk, span)
+                self.switch_bool(chk, mv(L(bl)), head, hit, span)
+                arm_set(hit, use(mv(L(item))))
+                arm_set(done, agg(OPT, 0, []))
+            elif tpl == "i_find_map":
+                o = self.new_local(dty)
+                chk, hit = nb(), nb()
+                self.invoke(got, f, fop, [x], L(o), chk, span)
+                self.switch_enum(chk, L(o), OPT, head, hit, span)
+                arm_set(hit, use(mv(L(o))))
+                arm_set(done, agg(OPT, 0, []))
+            else:
+                return False
+        if self.blocks[i]["term"]["k"] == "switch" or self.blocks[i]["term"]["k"] == "goto":
+            self.blocks[i]["term"]["desugared"] = C.callee_name(t)
+        self.changed = True
+        return True
+
+    # ---- plain helper / direct closure call inlining
+    def try_inline(self, i):
+        blk = self.blocks[i]
+        t = blk["term"]
+        cb, is_closure = _target(self.prog, t, self.helpers)
+        if cb is None or cb.name == self.body.name or cb.name in self.stack[i] or len(cb.blocks) > MAX_BLOCKS:
+            return False
+        off = len(self.locals)
+        boff = len(self.blocks)
+        self.locals += cb.locals
+        setup = []
+        args = t["args"]
+        sp = t["span"]
+        if is_closure and len(args) == 2 and cb.arg_count != 2:
+            # rust-call ABI: (env, (a, b, ..)) -> params _1 = env, _2.. = tuple fields
+            setup.append({"k": "assign", "lhs": {"l": off + 1, "p": []}, "rv": {"k": "use", "op": args[0]}, "span": sp})
+            tp = C.op_place(args[1])
+            for k in range(cb.arg_count - 1):
+                if tp is None:
+                    break
+                fld = {"k": "field", "i": k, "owner": "(tuple)", "fty": cb.locals[2 + k]["ty"]}
+                setup.append({"k": "assign", "lhs": {"l": off + 2 + k, "p": []},
+                              "rv": {"k": "use", "op": {"k": "move", "pl": {"l": tp["l"], "p": tp["p"] + [fld]}}}, "span": sp})
+        else:
+            for k, a in enumerate(args[:cb.arg_count]):
+                setup.append({"k": "assign", "lhs": {"l": off + 1 + k, "p": []}, "rv": {"k": "use", "op": a}, "span": sp})
+        new = [_remap_block(b, off, boff) for b in cb.blocks]
+        for nb in new:
+            if nb["term"]["k"] == "return":
+                nb["stmts"].append({"k": "assign", "lhs": t["dest"], "rv": {"k": "use", "op": {"k": "move", "pl": {"l": off, "p": []}}},
+                                    "span": nb["term"]["span"]})
+                if t.get("t") is not None:
+                    nb["term"] = {"k": "goto", "t": t["t"], "span": nb["term"]["span"]}
+                else:
+                    nb["term"] = {"k": "unreachable", "span": nb["term"]["span"]}
+        blk["stmts"] = blk["stmts"] + setup
+        blk["term"] = {"k": "goto", "t": boff, "span": sp, "inlined_call": C.callee_name(t)}
+        self.blocks += new
+        self.depth += [self.depth[i] + 1] * len(new)
+        self.stack += [self.stack[i] + (cb.name,)] * len(new)
+        self.changed = True
+        return True
+
+
+def op_place_(op):
+    return op["pl"] if op.get("k") in ("copy", "move") else None
+
+
+def inline_body(prog, body, helpers):
+    S = Splicer(prog, body, helpers)
+    i = 0
+    while i < len(S.blocks):
+        blk = S.blocks[i]
+        if blk["term"]["k"] == "call" and not blk["cleanup"] and S.depth[i] < MAX_DEPTH and not blk["term"]["callee"].get("synthetic"):
+            if not S.try_combinator(i):
+                S.try_inline(i)
+        i += 1
+    if not S.changed:
+        return None, set()
+    nj = dict(body.j)
+    nj["blocks"] = S.blocks
+    nj["locals"] = S.locals
+    return nj, S.consumed
 
 
 def inline_program(prog):
     helpers = {n for n, b in prog.bodies.items() if is_helper(b)}
-    has_closure_calls = False
-    for b in prog.bodies.values():
-        for bb, t in b.calls(live_only=False):
-            for n in C.callee_names(t):
-                tb = prog.bodies.get(n)
-                if tb is not None and tb.kind == "Closure":
-                    has_closure_calls = True
-    if not helpers and not has_closure_calls:
-        return prog, []
     new_bodies = []
+    consumed = set()
     for n, b in prog.bodies.items():
-        nj = inline_body(prog, b, helpers)
+        nj, cons = inline_body(prog, b, helpers)
+        consumed |= cons
         new_bodies.append(nj if nj is not None else b.j)
+    if not helpers and not consumed and all(nj is b.j for nj, b in zip(new_bodies, prog.bodies.values())):
+        return prog, []
     facts2 = dict(prog.facts)
     facts2["bodies"] = new_bodies
     p2 = C.Program(facts2, prog.label)
-    # helpers that are no longer mentioned anywhere disappear from the program (they live on inside their callers)
-    still = set()
-    for b in p2.bodies.values():
-        if b.name in helpers:
-            continue
-        for kind, bb, names, obj in C.body_mentions(b):
-            for nm in names:
-                if nm in helpers:
-                    still.add(nm)
-    drop = {h for h in helpers if h not in still}
+    # helpers that are no longer mentioned anywhere disappear from the program (they live on inside their callers); so do closures
+    # that were spliced into a match / loop and are no longer handed to (or called by) anything
+    drop = set()
+    while True:
+        still = set()
+        for b in p2.bodies.values():
+            if b.name in drop:
+                continue
+            if b.name in helpers:
+                # a helper that is itself going to be dropped does not keep others alive
+                pass
+            for kind, bb, names, obj in C.body_mentions(b):
+                for nm in names:
+                    if nm in helpers and b.name not in helpers:
+                        still.add(nm)
+            for bb, t in b.calls(live_only=False):
+                for at in t.get("arg_tys") or []:
+                    c = at.get("closure")
+                    if c in consumed and not (b.name in helpers):
+                        still.add(c)
+                for nm in C.callee_names(t):
+                    if nm in consumed:
+                        still.add(nm)
+            rt = b.locals[0]["ty"] if b.locals else ""
+            for c in consumed:
+                cb = prog.bodies[c]
+                if "closure@" in rt and cb.j.get("parent") == b.name:
+                    still.add(c)      # a function returning a closure: keep its closures
+        nd = {h for h in helpers if h not in still} | {c for c in consumed if c not in still}
+        if nd == drop:
+            break
+        drop = nd
     if drop:
-        # closures defined inside a dropped helper now belong to the function the helper was inlined into
+        # closures defined inside a dropped body now belong to the function it was inlined into
         host = {}
         for j in new_bodies:
+            if j["name"] in drop:
+                continue
             for blk in j["blocks"]:
-                ic = blk["term"].get("inlined_call")
-                if ic in drop and ic not in host and j["name"] not in drop:
+                ic = blk["term"].get("inlined_call") or blk["term"].get("inlined_closure")
+                if ic in drop and ic not in host:
                     host[ic] = j["name"]
+
+        def resolve(n):
+            seen = set()
+            while n in drop and n not in seen:
+                seen.add(n)
+                b = prog.bodies.get(n)
+                n = host.get(n) or (b.j.get("parent") if b is not None and b.kind == "Closure" else None) or n
+            return n
         out = []
         for j in new_bodies:
             if j["name"] in drop:
                 continue
-            if j.get("kind") == "Closure" and j.get("root") in drop:
+            if j.get("kind") == "Closure" and (j.get("root") in drop or j.get("parent") in drop):
                 j = dict(j)
-                h = host.get(j["root"])
-                if h:
-                    if j.get("parent") == j["root"]:
-                        j["parent"] = h
-                    j["root"] = h
+                j["parent"] = resolve(j.get("parent"))
+                j["root"] = resolve(j.get("root"))
+                rb = prog.bodies.get(j["root"])
+                if rb is not None and rb.kind == "Closure":
+                    j["root"] = rb.j.get("root") if rb.j.get("root") not in drop else resolve(rb.j.get("root"))
             out.append(j)
         facts2["bodies"] = out
         p2 = C.Program(facts2, prog.label)
     return p2, sorted(helpers)
+
+
+def deep_body(prog, body, max_depth=3):
+    """`body` with every call to a function of this crate spliced in (known functions included), for rules about what a function
+    does as a whole: `add_done(n)` delegating to `add_done_quiet(n)` still adds n to the same counter."""
+    cache = prog.__dict__.setdefault("_deep", {})
+    if body.name in cache:
+        return cache[body.name]
+    global MAX_DEPTH
+    allfns = {n for n, b in prog.bodies.items() if b.kind != "Closure"}
+    old = MAX_DEPTH
+    MAX_DEPTH = max_depth
+    try:
+        nj, _ = inline_body(prog, body, allfns)
+    finally:
+        MAX_DEPTH = old
+    res = body if nj is None else C.Body(nj, prog)
+    cache[body.name] = res
+    return res
